@@ -2,7 +2,7 @@
 # usage: tryneutral.sh <dir with patch.diff>... : applies each behaviour-preserving patch to a scratch copy,
 # checks build+suite, and lists every check that raises an alarm (each such line is a false alarm).
 export GOFLAGS=-mod=mod GOPROXY=off GOSUMDB=off GOTOOLCHAIN=local GOWORK=off
-for D in "$@"; do
+for D in "$@"; do D=$(readlink -f "$D")
   S=$(mktemp -d /tmp/cvss-neut.XXXXXX)
   rsync -a --exclude .git /repo/ "$S/repo/"; mkdir -p "$S/verif/evidence"; cp /verif/known_findings.txt "$S/verif/"
   if ! (cd "$S/repo" && patch -p1 -s < "$D/patch.diff"); then echo "##### $D PATCH-FAILED"; rm -rf "$S"; continue; fi
